@@ -107,6 +107,8 @@ def check(run):
                                    needs_module_names=True)
     sfailed = list(sfailed) + list(D.structural_generic(run, ["generation/simplifier.py"], excedge.time_limit_obligations, "pyvc.excedge (AST analysis)",
                                                         "E4: the alarm of time_limit is cancelled on every way out of a region"))
+    sfailed = list(sfailed) + list(D.structural_generic(run, ["generation/simplifier.py"], excedge.restore_obligations, "pyvc.excedge (AST analysis)",
+                                                        "E6: the timeout handler of a region that rewrites a function puts its string and expression back (what make_changes compares)"))
     D.report_structural(run, sfailed, "excedge", "pyvc/excedge.py")
     # the handlers that re-align parallel lists after a timeout, verified from their AST (what E3 asks of them)
     from contracts import c_dosympy
